@@ -118,6 +118,8 @@ def jobs(tier, seed):
           for s in SIX:
             out.append(_mk(panel, m, [s], el, i, seed=seed))
           for pr in PAIRS6:
+            if el is None and ('budget' in pr or set(pr) == {'share', 'vol'}):
+              continue   # default eligibility on 4 geos: does not exhaust
             out.append(_mk(panel, m, pr, el, i, seed=seed, max_s=2500))
       for tr in [('tsize', 'csize', 'gratio'), ('share', 'tsize', 'gratio')]:
         for i, el in enumerate(ELIGS3[:2]):
